@@ -7,6 +7,7 @@ ASSUMPTIONS = [
 STUB_NOTES = ['recording visitor (kernels/recvis.h) instead of json_decoder', 'bsink fixed-array Sink', 'operator new/delete, __cxa_guard_*, system_category modelled in generated C (irc RUNTIME_MODELS)',
               'std::string members, ldexp, nan: not modelled - unreachable for majors 0/1/7 (a reachable call would fail as "no body")']
 
+TRAP = r'_M_realloc_insert'
 def jobs(tier):
     J = []
     def add(id, harness, props, unwind, defs, timeout, desc, bound, **kw):
@@ -22,4 +23,6 @@ def jobs(tier):
      add('rt_half', 'h_rt_half', ['C06'], 10, {}, 300, 'half round trip bit for bit', 'all 65536 patterns')
     add('head', 'h_head', ['C06', 'C08'], 10, {}, 600, 'write_type_and_length: well-formed, denotes (major,length), shortest', 'all majors x all 2^64 lengths')
     add('min_stringref', 'h_min_stringref', ['C06'], 4, {}, 300, 'min_length_for_stringref == stringref spec table', 'all 2^64 indices')
+    for k in (0, 1, 2):
+        add('stringref_k%d' % k, 'h_stringref', ['C05', 'C07'], 10, dict(KREF=k, N=2), 600, 'tag 25 string reference: index < registered strings resolves to that string, otherwise stringref_too_large; no std::out_of_range', '%d registered strings, indices 0,1,2,3,23' % k, mem_gb=6)
     return J
